@@ -66,7 +66,15 @@ def drive(rec):
          "meta": {"recipe": rec, "source": rec.get("src", "random"), "nontrivial": True,
                   "impl_call": "Crystal(%d %r) radius=%.3f: %s" % (rec["number"], rec["choice"], rec["radius"],
                                                                   ",".join(q["kind"] for q in rec["queries"]))}}
-    cr = xtal.build_crystal(rec)
+    try:
+        cr = xtal.build_crystal(rec)
+    except Exception as e:
+        if not rec.get("via_switch"):
+            raise
+        t["ops"] = list(rec.get("table_ops", []))
+        t["queries"].append({"kind": "atoms_in_radius", "centre": [[0, 0, 0]], "excl": False, "exc": "switch:" + type(e).__name__,
+                             "off": False, "rows": []})
+        return t
     t["ops"] = [int(s.integer_code) for s in cr.space_group.symmetry_operations]
     radius = rec["radius"]
     for q in rec["queries"]:
